@@ -120,7 +120,9 @@ def run(tier, seed):
         before = {}
         if pre:
             for e in exts:
-                open(os.path.join(d, "art." + e), "wb").write(b"OLD " + e.encode())
+                # longer than anything the build writes (an artifact opened without truncation keeps a tail of it) for every
+                # second case, shorter otherwise
+                open(os.path.join(d, "art." + e), "wb").write(b"OLD " + e.encode() + (b"\n" + b"# stale line\n" * 400 if (ci // 2) % 2 == 0 else b""))
         before = listing(d)
         jobs.append(([C.UCG_BIN, "build", "art.ucg"], d, None))
         meta.append((d, outs, pre, before, src))
